@@ -106,6 +106,13 @@ cfg_not_miri! {
                     self.heap.len()
                 }
 
+                pub(crate) fn peek_time(&self) -> Option<SimTime> {
+                    self.zero_queue
+                        .front()
+                        .or_else(|| self.heap.peek())
+                        .map(|node| node.time)
+                }
+
                 pub(crate) fn new_with(options: &Builder) -> Self {
                     Self {
                         heap: BinaryHeap::with_capacity(64),
@@ -204,6 +211,10 @@ cfg_not_miri! {
                         inner: CQueue::new(options.cqueue_num_buckets, options.cqueue_bucket_timespan),
                         start_time: options.start_time,
                     }
+                }
+
+                pub(crate) fn peek_time(&self) -> Option<SimTime> {
+                    self.inner.peek_time().map(SimTime::from_duration)
                 }
 
                 #[allow(clippy::needless_pass_by_value)]
@@ -341,6 +352,13 @@ cfg_miri! {
 
             pub(crate) fn len_nonzero(&self) -> usize {
                 self.heap.len()
+            }
+
+            pub(crate) fn peek_time(&self) -> Option<SimTime> {
+                self.zero_queue
+                    .front()
+                    .or_else(|| self.heap.peek())
+                    .map(|node| node.time)
             }
 
             pub(crate) fn new_with(options: &Builder) -> Self {
